@@ -159,6 +159,64 @@ def provider_observations(thorough):
     return out
 
 
+def sequence_observations(thorough):
+    """Reassembly by the real DIMSE provider (receive_primitive) of a fragmented message that FOLLOWS another message on the same
+    association: whatever was received before - nothing, a C-ECHO-RQ, a C-CANCEL-RQ (which is never queued), an unfinished
+    and then finished message - the message handed on must be exactly the one sent."""
+    from io import BytesIO
+    from pynetdicom import evt
+    from pynetdicom.dimse_primitives import C_CANCEL, C_ECHO, C_STORE
+    from pynetdicom.pdu_primitives import P_DATA
+    from scp_rig import ScpRig, CT_STORAGE
+    import dimse_lab as L
+
+    def pdatas(prim, maxlen):
+        m = L.message_for(prim)
+        m.primitive_to_message(prim)
+        return m, list(m.encode_msg(1, maxlen))
+
+    out = []
+    for prev in ("none", "echo", "cancel", "cancel+cancel", "echo+cancel"):
+        for d, mx in ((0, 16382), (200, 48), (1018, 1030)) + (((2036, 1030), (5000, 0)) if thorough else ()):
+            got = []
+            rig = ScpRig([(1, CT_STORAGE, "1.2.840.10008.1.2", False, True), (3, "1.2.840.10008.1.1", "1.2.840.10008.1.2", False, True)],
+                         handlers=[(evt.EVT_DIMSE_RECV, lambda e: got.append(e.message))])
+            a = rig.assoc
+            for kind in ([] if prev == "none" else prev.split("+")):
+                if kind == "echo":
+                    q = C_ECHO()
+                    q.MessageID, q.AffectedSOPClassUID = 5, "1.2.840.10008.1.1"
+                else:
+                    q = C_CANCEL()
+                    q.MessageIDBeingRespondedTo = 5
+                for pd in pdatas(q, 48)[1]:
+                    a.dimse.receive_primitive(pd)
+            while a.dimse.get_msg(block=False)[1] is not None:
+                pass
+            del got[:]
+            p = C_STORE()
+            p.MessageID, p.AffectedSOPClassUID, p.AffectedSOPInstanceUID, p.Priority = 9, CT_STORAGE, "1.2.3.4", 2
+            data = bytes((3 * j + 2) % 251 for j in range(d))
+            if d:
+                p.DataSet = BytesIO(data)
+            else:
+                p = C_ECHO()
+                p.MessageID, p.AffectedSOPClassUID = 9, "1.2.840.10008.1.1"
+            sent, pds = pdatas(p, mx)
+            for pd in pds:
+                a.dimse.receive_primitive(pd)
+            cid, prim = a.dimse.get_msg(block=False)
+            pdvs = [{"cmd": bool(v[1][0] & 1), "last": bool(v[1][0] & 2), "len": len(v[1]) - 1} for pd in pds for v in pd.presentation_data_value_list]
+            done = prim is not None and len(got) == 1
+            cmdok = done and got[0].command_set == sent.command_set
+            dsok = done and ((prim.DataSet.getvalue() if getattr(prim, "DataSet", None) is not None else b"") == data)
+            out.append({"kind": "frag", "d": d, "max": mx, "backing": f"receive_primitive/after={prev}", "pdvs": pdvs,
+                        "pdulens": [4 + 2 + v["len"] for v in pdvs], "announces": bool(d),
+                        "rx": [{"done": bool(done), "cmdok": bool(cmdok), "dsok": bool(dsok), "groups": [1]}],
+                        "expected_data": [v["len"] for v in pdvs if not v["cmd"]]})
+    return out
+
+
 def run(ctx: Ctx, group: str) -> int:
     import dimse_lab as L
 
@@ -184,6 +242,8 @@ def run(ctx: Ctx, group: str) -> int:
                 obs.append(o)
         # the maximum actually used by the DIMSE provider: every (own maximum, peer maximum) x role, through the real send_msg
         obs += provider_observations(thorough)
+        if group == "C15":
+            obs += sequence_observations(thorough)
     # ---- message catalogue cases ------------------------------------------------------------------------------
     if group in ("C16", "C17"):
         cases = msg_cases(ctx)
